@@ -78,6 +78,8 @@ PROGRAMS = [
     "r = call(a, key=1,\n    *rest)\nclass C(B, m=M,\n  *bases): pass",
     # 57: grouping parentheses that alone keep a node apart from the keywords / names around it; targets of del inside brackets
     "with(a)as b: pass\nx = [i for i in(b)for j in k if(c)]\ny = a if((q))else c\nz = not(p)\ndel (d, e), [g]",
+    # 58: identifiers whose source spelling differs in length from the normalized name the AST holds (NFKC: 'ﬁ' is 'fi', 'ℌ' is 'H')
+    "def f(ﬁ, b: ℌ = ﬁ):\n    import m as ﬁ, n.ﬂ as o\n    try: pass\n    except E as ﬁ: pass\n    return ﬁ.ﬂ(ℌ=1)\ntype X[ﬁ: int] = ﬁ",
 ]
 
 for _p in PROGRAMS:
